@@ -2,7 +2,8 @@
 
 use std::path::PathBuf;
 
-use crate::c02::{run_scenario, RunOpts, Scenario};
+use crate::c02::{config, run_scenario, RunOpts, Scenario};
+use crate::spec;
 use crate::ev::{Case, Ctx, Scale};
 use crate::gen::{self, Extra, ReqSpec};
 use crate::json::Json;
@@ -146,6 +147,118 @@ fn split_sweep(c: &mut Case) {
     }
 }
 
+/// Hundreds of replies queued at once while the caller takes them away in small pieces: the
+/// unconsumed part of the output buffer must always be exactly the bytes not yet consumed, however
+/// large the backlog gets and however it is drained (a parser that compacts its output buffer
+/// beyond some size must not bring consumed bytes back or drop unconsumed ones).
+fn reply_backlog(c: &mut Case) {
+    use crate::syncdrive::SDriver;
+    let id = gen::gen_request_id(&mut c.rng);
+    let buffer = *c.rng.pick(&[64usize, 8192, 100_000]);
+    let cfg = config(buffer, 3);
+    let mut bytes = Vec::new();
+    wire::begin_request(&mut bytes, id, wire::RESPONDER, 1, 0);
+    wire::record(&mut bytes, wire::PARAMS, id, &[], 0);
+    let pre = bytes.len();
+    let n_records = 200 + c.rng.below(600);
+    for i in 0..n_records {
+        if c.rng.chance(1, 2) {
+            let t = loop {
+                let t = c.rng.u8();
+                if !wire::known_type(t) {
+                    break t;
+                }
+            };
+            wire::record(&mut bytes, t, if c.rng.chance(1, 2) { 0 } else { id }, &[], 0);
+        } else {
+            let mut body = Vec::new();
+            wire::nv_pair(&mut body, c.rng.pick(&wire::KNOWN_VARS).as_bytes(), b"", false, false);
+            wire::record(&mut bytes, wire::GETVALUES, 0, &body, 0);
+        }
+        if i % 50 == 49 {
+            wire::record(&mut bytes, wire::STDIN, id, &gen::tagged(1, i, 8), 0);
+        }
+    }
+    wire::record(&mut bytes, wire::STDIN, id, &[], 0);
+    let Some((sp, fed0)) = crate::c18::make_stream_parser(&cfg, &bytes[..pre], &mut c.rng) else {
+        c.violation("harness-setup", Json::obj().with("problem", "cannot build the stream parser"));
+        return;
+    };
+    let mut d = SDriver::new(sp, &bytes, fed0, bytes.len());
+    let consume_pct = *c.rng.pick(&[5usize, 15, 40]);
+    let mut max_backlog = 0usize;
+    let mut steps = 0;
+    while d.ok() && d.err.is_none() && steps < 200_000 {
+        steps += 1;
+        if !d.shadow_stream.is_empty() {
+            let len = d.shadow_stream.len();
+            d.consume_stream(len);
+        }
+        if !d.shadow_out.is_empty() && c.rng.below(100) < consume_pct {
+            let len = d.shadow_out.len();
+            let k = match c.rng.below(6) {
+                0 => len,
+                1 => 1,
+                _ => c.rng.range(1, len.min(300)),
+            };
+            d.consume_output(k);
+        }
+        if c.rng.chance(1, 4) {
+            d.compress();
+        }
+        let mut space = d.space();
+        if space == 0 && d.remaining() > 0 {
+            d.compress();
+            space = d.space();
+        }
+        let n = space.min(d.remaining()).min(1 + c.rng.below(2000));
+        let Some(st) = d.feed_parse(n, None) else { break };
+        max_backlog = max_backlog.max(d.shadow_out.len());
+        if d.remaining() == 0 && n == 0 && st.output == 0 && st.stream == 0 {
+            break;
+        }
+    }
+    // drain what is left, in pieces
+    while d.ok() && !d.shadow_out.is_empty() {
+        let len = d.shadow_out.len();
+        let k = c.rng.range(1, len.min(500));
+        d.consume_output(k);
+    }
+    c.l.evaluations += 1;
+    c.l.max("largest_reply_backlog_bytes", max_backlog as u64);
+    c.l.add("partial_output_consumes_in_backlog_runs", d.cnt.partial_output_consumes);
+    if let Some((sig, msg)) = d.problems.first().cloned() {
+        c.violation(format!("backlog:{sig}"), Json::obj().with("problem", msg).with("records", n_records).with("buffer_size", buffer).with("largest_backlog", max_backlog).with("last_actions", d.trace.iter().rev().take(12).rev().cloned().collect::<Vec<_>>()));
+        return;
+    }
+    // every reply exactly once, in order
+    let model = spec::model_streams(&bytes, pre, id, wire::RESPONDER);
+    match spec::decode_output(&d.out_all) {
+        Ok((recs, tail)) if tail == d.out_all.len() => {
+            if let Err(m) = crate::c07::prefix_match(&model.replies, &recs, "3") {
+                c.violation("backlog:replies", Json::obj().with("problem", m).with("records", n_records));
+                return;
+            }
+            if recs.len() != model.replies.len() {
+                c.violation("backlog:replies", Json::obj().with("problem", format!("{} replies in the output, the model owes {}", recs.len(), model.replies.len())));
+                return;
+            }
+        }
+        Ok(_) | Err(_) => {
+            c.violation("backlog:output-malformed", Json::obj().with("problem", "the concatenated output is not a sequence of complete records"));
+            return;
+        }
+    }
+    if max_backlog > 4096 {
+        c.l.count("runs_with_more_than_4_KiB_of_replies_pending");
+    }
+    c.l.sig(mix_sig(n_records as u64, buffer as u64));
+}
+
+fn mix_sig(a: u64, b: u64) -> u64 {
+    crate::rng::mix(0x04b, crate::rng::mix(a, b))
+}
+
 pub fn run_all(ctx: &Ctx, evidence: Option<&PathBuf>) -> i32 {
     ctx.run_fixed("unknown-types", 256, unknown_types);
     ctx.run_fixed("directed", if ctx.miri() { 2 } else { ctx.dn(300) }, |c| {
@@ -169,6 +282,10 @@ pub fn run_all(ctx: &Ctx, evidence: Option<&PathBuf>) -> i32 {
         }
     });
     ctx.run_cases("split-sweep", ctx.size3(60, 6_000, 6), split_sweep);
+    ctx.run_cases("reply-backlog", ctx.size3(60, 6_000, 1), reply_backlog);
+    if !ctx.miri() {
+        ctx.gate("runs_with_more_than_4_KiB_of_replies_pending", 10);
+    }
     ctx.gate("unknown_type_values", 245);
     ctx.gate("replies_checked", 1000);
     ctx.gate("split_positions", 2000);
